@@ -36,9 +36,10 @@ MANIFEST = dict(
          "C08_ratio_ops, C08_checked_mul_in_range); the factorial loop terminates for every order >= 1 "
          "(C08_factorial_terminates); kernel-computed witnesses of what the unchecked operations do "
          "(C08_power_overflow_refuted, C08_lcm_overflow_refuted, C08_factorial_truncation_refuted, "
-         "C08_comparison_nan_refuted on primitive floats). Two classes of crashing inputs remain OPEN findings (NaN "
-         "comparison after an overflowing conversion; stack overflow on operator chains of more than ~5000 terms), "
-         "the other defects found by this exploration (18 findings) were fixed in numbat.",
+         "C08_comparison_nan_refuted on primitive floats). Three classes of crashing inputs remain OPEN findings (NaN "
+         "comparison after an overflowing conversion; stack overflow on deep nesting; stack overflow on operator chains "
+         "of more than ~5000 terms), "
+         "the other defects found by this exploration (17 findings) were fixed in numbat.",
     design_ref="DESIGN.md §6 C08, §7 #4-#7; design/misc.md",
     note="Trusted: Coq kernel; Overflow/Model.v as a description of num-rational 0.4.2 and math.rs; the exploration "
          "harness (harness/src/crash.rs). An exploration finding nothing is not a proof of absence.",
